@@ -67,6 +67,11 @@ def check(run):
                     draw = info
                     run.ok("ORDER", fq, f"chain = uniform permutation of self.feature_names via {draw[2]}")
                 else:
+                    if not any(t == FEATURE_NAMES or t[0] == "draw" for t in ir.subterms(lp.iter)):
+                        # the innermost loop around the loss calls walks neither the feature names nor anything drawn: the
+                        # walk along the feature order is not written as a loop here (a lazily consumed generator, ...)
+                        raise AnalysisError(f"{fq}: the loop around the loss evaluations runs over {ir.show_nl(lp.iter)[:80]}; "
+                                            f"the walk along the feature order is not identified")
                     run.fail("ORDER", fq, f"{s.path}:{lp.line}", fq, f"chain over {ir.show_nl(lp.iter)[:140]}",
                              f"the feature order must be a uniformly random permutation of exactly the feature names: {info}")
                     continue
